@@ -128,6 +128,9 @@ class T:
         if e.get("kind") == "UnaryOperator" and e.get("opcode") == "!":
             v = self.enum_const(e["inner"][0])
             return None if v is None else int(not v)
+        if e.get("kind") == "UnaryOperator" and e.get("opcode") == "-":
+            v = self.enum_const(e["inner"][0])
+            return None if v is None else -v
         return None
 
     def reg_of(self, e):
@@ -500,6 +503,8 @@ class T2(T):
             b = self.local_reg(s["inner"][0])
             if b is not None and self.is_mem(b):
                 return False        # a read THROUGH the tracked pointer is untracked data
+        if s.get("kind") == "UnaryOperator" and s.get("opcode") == "&" and self.local_reg(s["inner"][0]) is not None:
+            return False            # an out-parameter: handled as a havoc after the call
         return any(self.mentions_reg(c) for c in kids(s))
 
     def const_for(self, reg, e):
@@ -509,6 +514,8 @@ class T2(T):
             for tname, vals in self.enums.items():
                 if n in vals:
                     return vals[n] + self.spec["offset"].get(reg, 0)
+            if n in self.consts:
+                return self.consts[n] + self.spec["offset"].get(reg, 0)
             return None
         if e.get("kind") in ("GNUNullExpr",):
             return 0
@@ -547,7 +554,9 @@ class T2(T):
             if self.local_reg(l) is not None:
                 raise self.U("tracked local / memory location assigned inside an expression: " + self.text(e))
             if not self.is_local_lvalue(l):
-                out.append(f"(.ev {self.site(e, 'store')} 0)")
+                kind_ = (self.spec.get("marked_stores") or {}).get(re.sub(r"\s+", "", self.text(e, 200)), 0)
+                kind_ = getattr(self, "kind_by_id", {}).get(e.get("id"), kind_)
+                out.append(f"(.ev {self.site(e, 'store')} {kind_})")
         elif k == "UnaryOperator" and e.get("opcode") in ("++", "--"):
             l = strip(e["inner"][0])
             if self.local_reg(l) is not None:
@@ -843,5 +852,57 @@ def translate_tick_flow(spec, fdecl, src, consts, U, root):
     out += ["-/", "import Nice.Model.Flow", "namespace Nice.Gen." + spec["lean_ns"], "open Nice.Flow", "",
             "def prog : Stmt :=", prog, "",
             f"def boolSites : List Nat := [{', '.join(map(str, sorted(set(t.bool_sites))))}]",
+            "", "end Nice.Gen." + spec["lean_ns"], ""]
+    return "\n".join(out), {"sites": len(t.sites)}
+
+
+# ---------------------------------------------------------------------------------------------------------------------
+# fifth skeleton: agent/conncheck.c priv_map_reply_to_relay_request (C20: what ends a TURN discovery item)
+# ---------------------------------------------------------------------------------------------------------------------
+SPEC_RELAY = {
+    "lean_ns": "RelayReply",
+    "file": "agent/conncheck.c",
+    "fn": "priv_map_reply_to_relay_request",
+    "locals": {"code": 0, "trans_found": 1},
+    "offset": {0: 1},                       # `int code = -1`
+    "cond_calls": {}, "bool_result_calls": set(), "pure": set(),
+    "marked_stores": {"d->done=TRUE": 5, "d->pending=FALSE": 6},
+}
+
+
+def translate_relay(spec, fdecl, src, consts, U, root):
+    t = T2(spec, fdecl, src, consts, U, {})
+    # the `if` that decides between "send the request again" (then-branch re-arms the item: d->pending = FALSE) and
+    # "a real error" (else-branch ends it: d->done = TRUE): the ending store of THAT else-branch is event kind 7
+    norm = lambda n: re.sub(r"\s+", "", t.text(n, 200))
+    def stores(n, txt):
+        return [x for x in walk(n) if x.get("kind") == "BinaryOperator" and x.get("opcode") == "=" and norm(x) == txt]
+    t.kind_by_id = {}
+    deciding = [n for n in walk(t.body) if n.get("kind") == "IfStmt" and len(kids(n)) == 3 and
+                stores(kids(n)[1], "d->pending=FALSE") and not stores(kids(n)[1], "d->done=TRUE")]
+    if len(deciding) != 1:
+        raise U(f"expected exactly one if that re-arms the item in its then-branch, found {len(deciding)}")
+    ends = stores(kids(deciding[0])[2], "d->done=TRUE")
+    if len(ends) != 1:
+        raise U("the else-branch of the re-arming if does not end the item exactly once")
+    t.kind_by_id[ends[0].get("id")] = 7
+    prog = t.top()
+    need = ("STUN_ERROR_STALE_NONCE", "STUN_ERROR_UNAUTHORIZED")
+    for n in need:
+        if n not in consts:
+            raise U(f"{n} not among the extracted constants")
+    out = [f"/- GENERATED by tools/extract_flow.py from {spec['file']} {spec['fn']} — do not edit.",
+           "   Skeleton (see lean/Nice/Model/Flow.lean).  Registers: r0 = `code` + 1 (the ERROR-CODE of the answer, -1 = none),",
+           "   r1 = `trans_found`.  Event kinds: 5 = `d->done = TRUE` (the discovery item is finished), 6 = `d->pending = FALSE`",
+           "   (the item is re-armed: the request will be sent again with the new nonce / realm), 7 = the `d->done = TRUE` in the",
+           "   else-branch of the if whose then-branch re-arms (\"a real unauthorized error\"), 0 = other call / store.  Sites:"]
+    for i, d in enumerate(t.sites):
+        out.append(f"     {i} — {d}".replace("/-", "/ -").replace("-/", "- /"))
+    out += ["-/", "import Nice.Model.Flow", "namespace Nice.Gen." + spec["lean_ns"], "open Nice.Flow", "",
+            "def prog : Stmt :=", prog, "",
+            f"def codeStaleNonce : Nat := {consts['STUN_ERROR_STALE_NONCE'] + 1}",
+            f"def codeUnauthorized : Nat := {consts['STUN_ERROR_UNAUTHORIZED'] + 1}",
+            f"def nDone : Nat := {sum(1 for x in t.sites if 'd->done = TRUE' in x)}",
+            f"def nRearm : Nat := {sum(1 for x in t.sites if 'd->pending = FALSE' in x)}",
             "", "end Nice.Gen." + spec["lean_ns"], ""]
     return "\n".join(out), {"sites": len(t.sites)}
